@@ -75,7 +75,7 @@ func c16Probe(w *mintops.W) {
 	w.ProbeLimitsUnderReadFaults()
 }
 
-func c16Specs(quick bool) []*bfs.Spec {
+func c16OwnSpecs(quick bool) []*bfs.Spec {
 	d := 3
 	if !quick {
 		d = 5
@@ -127,7 +127,7 @@ func c16Specs(quick bool) []*bfs.Spec {
 var c16All = specMap(c16Specs(true), c16Specs(false))
 
 func init() {
-	register(&Prop{ID: "C16", Level: "model_checking", QuickBudget: 100 * time.Second, ThoroughBudget: 25 * time.Minute,
+	register(&Prop{ID: "C16", Level: "model_checking", QuickBudget: 300 * time.Second, ThoroughBudget: 25 * time.Minute,
 		Run: func(c *rt.Ctx) {
 			c.Cov["rule"] = "E3, one search per limits configuration (unset / mint max {7,8,9} / melt max {3,4,5} / max balance {8, exactly the balance 16, 23, 24, 25, 2^64-1} / all three), fees 0 and 100: every history up to the depth bound over {mint quote for x in {1,7,8,9,2^63-1,2^63,2^64-1,2^64-8}, settle, mint (exact, less), swap (fee burns value), melt quote x {3,4,5}, melt quote on the invoice of an own mint quote (internal) and, with a melt maximum M, invoices / MPP parts of M*1000-1, +1, +500, +999 msat, melt x {Succeeded, Failed}, rotate}; in every state IssuedEcash/RedeemedEcash/TotalBalance are compared per keyset with the model's sums of signatures handed out / proofs consumed, the info endpoint with the exact predicate, and every quote request with the limit predicates evaluated in math/big; in every state the balance figures, the info flag and the refusal of the smallest over-balance mint quote are repeated with a storage error injected at each read call of the request: the answer must be an error or unchanged"
 			c.Cov["limit_configurations"] = len(c16Specs(c.Quick()))
@@ -136,4 +136,9 @@ func init() {
 		Worker: bfs.Worker(c16All),
 		Replay: func(p string) int { return bfs.ReplayFile("C16", c16All, p) },
 	})
+}
+
+// c16Specs: the property's own searches plus the shallow search over the union of all mint-level menus (seqcommon.go).
+func c16Specs(quick bool) []*bfs.Spec {
+	return append(c16OwnSpecs(quick), unionSpecs("C16", c16Probe, quick)...)
 }
